@@ -189,9 +189,15 @@ where
     }
     // Newton iterations
     let mut l = (operand / D::from_num(2)) + D::from_num(1);
-    for _i in 0..D::frac_nbits() {
+    // Starting above the root, the iterates decrease until they reach it, which
+    // takes about one iteration per integer bit plus a few for the fraction.
+    for _i in 0..(D::int_nbits() + D::frac_nbits()) {
         verif_tick!();
-        l = (l + operand / l) / D::from_num(2);
+        let next = (l + operand / l) / D::from_num(2);
+        if next >= l {
+            break;
+        }
+        l = next;
     }
     if invert {
         l = if let Some(r) = D::from_num(1).checked_div(l) {
